@@ -289,3 +289,41 @@ def self_attr_assignments(prog: Program, ci: ClassInfo, own_only: bool = False) 
                     if isinstance(t, ast.Attribute) and isinstance(t.value, ast.Name) and t.value.id == "self":
                         out.setdefault(t.attr, []).append((f, n, val))
     return out
+
+
+def seq_inline(body: list[ast.stmt], e: ast.expr, stop_at: ast.AST | None = None) -> ast.expr:
+    """Substitute straight-line definitions in program order: unlike `Inliner` (single-definition locals only) a local may
+    be bound several times (`d = a @ b; d = d - c` — the rebinding form of an in-place `d -= c`); each use sees the value
+    bound last before it.  Only top-level `Name = expr` statements before `stop_at` (or the statement containing `e`) are
+    followed; anything else leaves the names it binds unknown."""
+    import copy
+
+    env: dict[str, ast.expr] = {}
+
+    def subst(x: ast.expr) -> ast.expr:
+        class T(ast.NodeTransformer):
+            def visit_Name(self, node):
+                if isinstance(node.ctx, ast.Load) and node.id in env:
+                    return copy.deepcopy(env[node.id])
+                return node
+
+        return T().visit(copy.deepcopy(x))
+
+    for st in body:
+        if stop_at is not None and any(n is stop_at for n in ast.walk(st)):
+            break
+        if any(n is e for n in ast.walk(st)):
+            break
+        if isinstance(st, (ast.Assign, ast.AnnAssign)) and st.value is not None:
+            tg = st.targets if isinstance(st, ast.Assign) else [st.target]
+            if len(tg) == 1 and isinstance(tg[0], ast.Name):
+                env[tg[0].id] = subst(st.value)
+                continue
+        if isinstance(st, ast.AugAssign) and isinstance(st.target, ast.Name):
+            # value-wise `x op= e` is `x = x op e` (whether the update is in place matters to aliasing rules, not to the value)
+            env[st.target.id] = ast.BinOp(left=subst(ast.Name(id=st.target.id, ctx=ast.Load())), op=st.op, right=subst(st.value))
+            continue
+        for n in ast.walk(st):
+            if isinstance(n, ast.Name) and isinstance(n.ctx, ast.Store):
+                env.pop(n.id, None)
+    return subst(e)
